@@ -3,9 +3,13 @@
 package extendeddaemonset
 
 import (
+	"time"
+
+	corev1 "k8s.io/api/core/v1"
 	metav1 "k8s.io/apimachinery/pkg/apis/meta/v1"
 
 	datadoghqv1alpha1 "github.com/DataDog/extendeddaemonset/api/v1alpha1"
+	"github.com/DataDog/extendeddaemonset/zzverif/fakeapi"
 	"github.com/DataDog/extendeddaemonset/zzverif/nondet"
 )
 
@@ -49,4 +53,64 @@ func ZZ_C08_state() {
 	nondet.Observe("state2", string(status.State))
 	nondet.Reach("C08.state.frozen-and-paused", frozen && paused)
 	nondet.Reach("C08.state.canary-paused", isActive && isPaused && !isFailed)
+}
+
+// ZZ_C08_canaryPausedReconcile: a canary whose duration has elapsed, paused by the annotation
+// and/or by the replica set's own Canary-Paused condition (the annotation may also be present
+// with another value): the real Reconcile does not promote it and reports "Canary Paused";
+// explicit validation still promotes it.
+func ZZ_C08_canaryPausedReconcile() {
+	canary := &datadoghqv1alpha1.ExtendedDaemonSetSpecStrategyCanary{
+		ValidationMode:     datadoghqv1alpha1.ExtendedDaemonSetSpecStrategyCanaryValidationModeAuto,
+		Duration:           &metav1.Duration{Duration: 10 * time.Minute},
+		NoRestartsDuration: &metav1.Duration{Duration: time.Minute},
+	}
+	ds := zzEDS("ns", "foo", "B", canary)
+	c := fakeapi.New()
+	rsA := zzRS(ds, "A", "foo-a", nondet.Base().Add(-24*time.Hour))
+	rsA.Status.Desired, rsA.Status.Current, rsA.Status.Ready, rsA.Status.Available = 2, 2, 2, 2
+	ageSec := nondet.Int("canaryAgeSec", 0, 1300)
+	rsB := zzRS(ds, "B", "foo-b", nondet.Base().Add(-time.Duration(ageSec)*time.Second))
+	condPaused := false
+	if nondet.Bool("rsB.pausedCond.present") {
+		condPaused = nondet.Bool("rsB.pausedCond")
+		zzSetCond(rsB, datadoghqv1alpha1.ConditionTypeCanaryPaused, condPaused, nondet.Base().Add(-time.Minute))
+	}
+	annPaused := false
+	if nondet.Bool("ann.paused.present") {
+		v := nondet.String("ann.paused", "true", "false", "")
+		ds.Annotations[datadoghqv1alpha1.ExtendedDaemonSetCanaryPausedAnnotationKey] = v
+		annPaused = v == "true"
+	}
+	valid := nondet.Bool("ann.valid")
+	if valid {
+		ds.Annotations[datadoghqv1alpha1.ExtendedDaemonSetCanaryValidAnnotationKey] = "foo-b"
+	}
+	ds.Status.ActiveReplicaSet = "foo-a"
+	ds.Status.Canary = &datadoghqv1alpha1.ExtendedDaemonSetStatusCanary{ReplicaSet: "foo-b", Nodes: []string{"node0"}}
+	c.ERS = append(c.ERS, rsB, rsA)
+	c.Nodes = append(c.Nodes, &corev1.Node{ObjectMeta: metav1.ObjectMeta{Name: "node0"}}, &corev1.Node{ObjectMeta: metav1.ObjectMeta{Name: "node1"}})
+	c.EDS = append(c.EDS, ds)
+
+	_, err := zzReconcile(zzReconciler(c), "ns", "foo")
+	st := zzStoredEDS(c, "ns", "foo").Status
+	paused := condPaused || annPaused
+	nondet.Fact("paused", paused)
+	nondet.Fact("valid", valid)
+	nondet.Assert("C08.cr.noerror", err == nil)
+	if paused && !valid {
+		nondet.Assert("C08.cr.not-promoted", st.ActiveReplicaSet == "foo-a")
+		nondet.Assert("C08.cr.state", st.State == datadoghqv1alpha1.ExtendedDaemonSetStatusStateCanaryPaused)
+		nondet.Assert("C08.cr.canary-kept", st.Canary != nil && st.Canary.ReplicaSet == "foo-b")
+	}
+	if valid {
+		nondet.Assert("C08.cr.validated", st.ActiveReplicaSet == "foo-b")
+	}
+	if !paused && !valid && ageSec < 600 {
+		nondet.Assert("C08.cr.running-canary", st.ActiveReplicaSet == "foo-a" && st.State == datadoghqv1alpha1.ExtendedDaemonSetStatusStateCanary)
+	}
+	nondet.Observe("active", st.ActiveReplicaSet)
+	nondet.Observe("state", string(st.State))
+	nondet.Reach("C08.cr.paused-and-elapsed", paused && !valid && ageSec > 700)
+	nondet.Reach("C08.cr.cond-paused-ann-other", condPaused && !annPaused && !valid && ageSec > 700 && len(ds.Annotations) > 0)
 }
